@@ -56,3 +56,6 @@ reg("C21", "exploration", "runtime monitor: conservation invariant on comment te
 reg("C17", "exploration", "runtime monitor: structural span invariants (token-aligned Pos/End, child-inside-parent, ordered non-overlapping siblings) checked by an independent reflection walker against the scanner's token table, plus ParseExpr(source slice) shape-equality for context-free expression kinds; rules that go/ast itself breaks are calibrated on go/parser trees and frozen",
     "Every node of every error-free parse of the run is checked; the two inherited go/ast conventions found by calibration are listed in the evidence.",
     "Nodes inside interpolated strings and domain-text arguments live inside one scanner token and are only checked for containment; synthetic nodes are skipped.")
+reg("C22", "exploration", "runtime monitor: round-trip of programmatically built, position-free, parenthesis-free xgo/ast trees through printer.Fprint and the parser (bare expression, statement, if/for/switch header), shape comparison with ParenExprs deleted; failing trees are reduced to the smallest sub-tree that fails in isolation",
+    "Every generated tree is printed by the real printer and re-parsed by the real parser; all binary operators, unary/star/arrow chains, postfix operations on non-primary operands and the XGo node kinds are covered.",
+    "Well-formedness as generated (DESIGN.md §C22): lambdas as call arguments, bracket/brace literals not as postfix operands or as the left operand of '*', no bare `x!` directly before ':'; these exclusions are syntax that XGo cannot express without source-level parentheses chosen by the author.")
